@@ -42,7 +42,8 @@ def sig_malformed_q(ev, mis):
                 if v in ("", ".") or not re.fullmatch(r"\d*\.?\d*", v):
                     malformed = True
     outside = [ct for ct in ev["cts"] if ct not in ev["produces"]]
-    return malformed and bool(outside) and all(ct in ev["acc"] for ct in ev["cts"])
+    # the fall-backs that ignore Produces: substring lookup over the header, then the package default type
+    return malformed and bool(outside) and all(ct in ev["acc"] or ct == ev["def"] for ct in ev["cts"])
 
 
 FAM = {
